@@ -28,7 +28,7 @@ Panic-freedom of the library below the binding is C01 under the python config.
 Not decided: json.dumps/json.loads round-trips of Python objects (library behaviour).
 """
 import ast, os, re
-from .core import callee_of, callee_path, strip_refs, strip_payload, show_expr, const_value, op_const
+from .core import callee_of, callee_path, strip_refs, strip_payload, show_expr, const_value, op_const, expr_mentions
 from .engine import Inconclusive
 from . import extract as ex
 from . import errdisc
@@ -293,10 +293,15 @@ def check_native(ctx):
     p0, p1 = parsed_param(f.trace(at["args"][0])), parsed_param(f.trace(at["args"][1]))
     ctx.check(p0 == ("arg", 1) and p1 == ("arg", 2), "K2.parse-order", "apply(from_str(value)?, from_str(data)?) — rule first, data second",
               "the library is called with (%s, %s)" % (show_expr(strip_payload(f.trace(at["args"][0]))), show_expr(strip_payload(f.trace(at["args"][1])))), where=f.where(abi), fn=f.key, nontrivial=True)
-    # result: map(map_err(apply(..)), |v| v.to_string())
+    # result: Value::to_string of apply's Ok payload — `apply(..).map_err(..).map(|v| v.to_string())` or
+    # `match apply(..) { Ok(v) => Ok(v.to_string()), Err(e) => Err(..) }`; every other exit is an error tied to a fallible step
     r = strip_refs(f.trace(0))
     cands = [strip_refs(x) for x in r[2]] if r[0] == "phi" else [r]
+    parse_bis = [bi for bi, t in f.calls() if callee_path(t) == "serde_json::from_str"]
+    mentions_call = lambda e, bi_: expr_mentions(e, lambda y: y[0] == "call" and y[3] == bi_ and y[1] is not None)
     good = False
+    bad_ok = []
+    err_of = set()
     for c in cands:
         if c[0] == "call" and c[1] and c[1]["path"] == "std::result::Result::<T, E>::map":
             src = strip_refs(c[2][0])
@@ -310,7 +315,24 @@ def check_native(ctx):
                 ser = rr[0] == "call" and rr[1] and rr[1]["path"].endswith("::to_string") and "serde_json::Value" in rr[1]["full"] and strip_refs(rr[2][0]) == ("arg", 2)
             if src[0] == "call" and src[3] == abi and ser:
                 good = True
-    ctx.check(good, "K2.serialises-result", "the binding returns Value::to_string of apply's Ok payload", "the binding's result is %s" % show_expr(r), where=f.where(), fn=f.key, nontrivial=True)
+                err_of.add(abi)
+            else:
+                bad_ok.append(show_expr(c)[:80])
+        elif c[0] == "agg" and c[1].get("variant") == "Ok":
+            v = strip_refs(c[2][0])
+            ser = v[0] == "call" and v[1] and v[1]["path"].endswith("::to_string") and "serde_json::Value" in (v[1].get("full") or "")
+            pay = strip_payload(v[2][0]) if ser and v[2] else None
+            if ser and pay is not None and pay[0] == "call" and pay[3] == abi:
+                good = True
+            else:
+                bad_ok.append(show_expr(c)[:80])
+        elif (c[0] == "agg" and c[1].get("variant") == "Err") or (c[0] == "call" and c[1] and "from_residual" in c[1]["path"]):
+            for bi_ in parse_bis + [abi]:
+                if mentions_call(c, bi_):
+                    err_of.add(bi_)
+        else:
+            bad_ok.append(show_expr(c)[:80])
+    ctx.check(good and not bad_ok, "K2.serialises-result", "the binding returns Value::to_string of apply's Ok payload, and nothing else on success", "the binding's result is %s" % (bad_ok or show_expr(r)[:200]), where=f.where(), fn=f.key, nontrivial=True)
     # errors: no dropper on any Result in the python interface
     droppers = []
     for b in py:
@@ -322,8 +344,8 @@ def check_native(ctx):
         ctx.fail("K2.error-dropped", "%s@%s" % (b.key.split("::", 1)[1], p.rsplit("::", 1)[1]), "the binding discards an error with %s — malformed input or a library error would surface as a value" % p, where=b.where(bi), fn=b.key)
     if not droppers:
         ctx.ok("K2.error-dropped", "no Result is discarded in the binding", nontrivial=True)
-    nbranch = sum(1 for bi, t in f.calls() if (callee_path(t) or "").endswith("as std::ops::Try>::branch"))
-    ctx.check(nbranch >= 2, "K2.parse-errors-propagate", "both parse errors are propagated with `?`", "%d `?` in the binding" % nbranch, where=f.where(), fn=f.key)
+    ctx.check(len(parse_bis) == 2 and all(bi_ in err_of for bi_ in parse_bis) and abi in err_of, "K2.parse-errors-propagate", "the two parse errors and the library's error each have their own error exit (`?` or an Err arm)",
+              "error exits found for calls at blocks %s of the fallible steps %s" % (sorted(err_of), parse_bis + [abi]), where=f.where(), fn=f.key, nontrivial=True)
     # wrapper: map_err(inner(value,data), |e| PyErr::new::<ValueError,_>)
     r = strip_refs(w.trace(0))
     good = r[0] == "call" and r[1] and r[1]["path"] == "std::result::Result::<T, E>::map_err"
@@ -376,6 +398,10 @@ def check_native(ctx):
             if c and re.search(r"Argument::<'_>::new_(display|debug)$", c["path"]):
                 for ta in t["callee"].get("targs", []):
                     out.add(ta.lstrip("&"))
+            if c and c["path"].endswith("std::string::ToString>::to_string"):
+                m_ = re.match(r"^<(.+) as std::string::ToString>::to_string$", c.get("full") or "")
+                if m_:
+                    out.add(m_.group(1).lstrip("&"))
         return out
 
     cgl, _ = facts.callgraph()
